@@ -51,6 +51,16 @@ class UserAddEdge(ActionGroup):
                 "than the target node"
             )
 
+        # refuse a third child before any conflicting edge is removed, so that a refused
+        # action leaves the tracks untouched
+        out_degree_source = self.tracks.graph.out_degree(source)
+        if self.tracks.graph.has_edge(source, target):
+            out_degree_source -= 1
+        if out_degree_source > 1:
+            raise InvalidActionError(
+                f"Expected degree of 0 or 1 before adding edge, got {out_degree_source}"
+            )
+
         # Check if making a merge. If yes and force, remove the other edge and update
         # track ids.
         in_degree_target = self.tracks.graph.in_degree(target)
